@@ -52,13 +52,13 @@ def spawn(args, hashseed, scratch):
                             stderr=subprocess.STDOUT, text=True)
 
 
-def fresh_replay(path, hashseed, scratch, timeout=300):
+def fresh_replay(path, hashseed, scratch, timeout=300, with_history=False):
     env = dict(os.environ)
     env["PYTHONHASHSEED"] = hashseed or "0"
     env["PYTHONDONTWRITEBYTECODE"] = "1"
     env["VERIF_SCRATCH"] = scratch
     cmd = [PY, os.path.join(VERIF_DIR, "check"), "--internal",
-           json.dumps({"mode": "replay", "replay": path})]
+           json.dumps({"mode": "replay", "replay": path, "with_history": with_history})]
     try:
         p = subprocess.run(cmd, env=env, cwd=scratch, capture_output=True, text=True,
                            timeout=timeout)
@@ -159,6 +159,25 @@ def _run_check(pid, tier, base_seed, jobs, meta, scratch, t0):
             rf = json.load(f)
         if rr is None or rr["status"] != "violation" or rr["oracle"] != rf["oracle"] \
                 or rr["digest"] != rf["event_log_digest"]:
+            # Not reproducible from its own tape alone.  The run may depend on state that earlier
+            # runs of the same worker left in the process (e.g. a cache inside the code under
+            # test): re-execute that worker's run sequence up to this run in a fresh interpreter.
+            h = rf.get("history")
+            if h:
+                rr2, raw2 = fresh_replay(v["replay"], hs, scratch, timeout=1200, with_history=True)
+                if rr2 is not None and rr2["status"] == "violation" \
+                        and rr2["oracle"] == h["oracle_unshrunk"] and rr2["digest"] == h["digest_unshrunk"]:
+                    rf["needs_history"] = True
+                    rf["oracle"], rf["message"] = rr2["oracle"], rr2["message"]
+                    rf["details"], rf["event_log_digest"] = rr2["details"], rr2["digest"]
+                    rf["note"] = ("depends on process state left by earlier runs of the same worker; the "
+                                  "replay re-executes runs 0..index of that worker (the shrunk tape alone "
+                                  "does not reproduce it)")
+                    with open(v["replay"], "w") as f:
+                        json.dump(rf, f, indent=1)
+                    v = dict(v, oracle=rr2["oracle"], message=rr2["message"] + " [needs run history]")
+                    confirmed.append(v)
+                    continue
             harness_errors.append(
                 f"violation seed={v['seed']} did not reproduce in a fresh interpreter: "
                 f"{rr!r}\n{raw[-2000:]}")
